@@ -2,7 +2,7 @@
     voting-power tallies with their early exits, light.Verify, checkValidity. *)
 From Teleport Require Import Base.Bytes Base.Outcome Model.Tendermint Proofs.TendermintStore.
 From Coq Require Import Lia ZArith NArith List Bool.
-From Coq Require Import ZifyN ZifyNat.
+From Coq Require Import ZifyN ZifyNat ZifyBool.
 Local Open Scope Z_scope.
 
 (** * Outcome monad inversion *)
@@ -62,7 +62,8 @@ Lemma forallb_validator_basic vals :
 Proof.
   induction vals as [|v l IH]; cbn; [split; constructor|].
   intro H. apply andb_true_iff in H as [Hv Hl]. unfold validator_basic in Hv.
-  apply andb_true_iff in Hv as [H1 H2]. destruct (IH Hl). split; constructor; auto; lia.
+  apply andb_true_iff in Hv as [H1 H2]. apply Z.leb_le in H1. apply Z.eqb_eq in H2.
+  destruct (IH Hl). split; constructor; auto.
 Qed.
 
 Lemma valset_from_proto_ok vp vals tot :
